@@ -165,6 +165,21 @@ def _scaled_param(n):
     return None, False
 
 
+def _fresh_pair(args, linit, body):
+    """deallocate(L, X) where the local L holds the result of allocate(X) of this very function: a block that is given back
+    before it was ever owned (roll-back of a failed relocation)."""
+    a0 = A.strip(args[0])
+    if not (isinstance(a0, dict) and a0.get('k') == 'ref' and a0.get('dk') == 'local'):
+        return False
+    ini = linit.get(a0.get('did'))
+    src = A.strip(ini[0]) if ini and ini[0] is not None else None
+    if not (isinstance(src, dict) and src.get('k') == 'call' and A.cshort(src) == 'allocate' and src.get('args')):
+        return False
+    if any(A.strip(l).get('k') == 'ref' and A.strip(l).get('did') == a0.get('did') for _st, l in A.stores(body) if isinstance(A.strip(l), dict)):
+        return False      # re-assigned local
+    return A.struct_eq(A.strip(src['args'][0]), A.strip(args[1]))
+
+
 def alloc_args(progs):
     rr = RuleResult('DEALLOC-ARG', 'each block is returned / reallocated with the capacity word that travels with it: deallocate(p, n) gets the '
                                    'storage pointer and the capacity field of the same object, Reallocate gets (storage, capacity, new capacity, size) '
@@ -181,7 +196,11 @@ def alloc_args(progs):
                 sn = A.cshort(c)
                 args = c.get('args', [])
                 site = rel(prog.site(f, c))
-                if in_base and sn == 'deallocate' and len(args) >= 2:
+                if sn == 'deallocate' and len(args) >= 2 and (in_base or f['name'] in ('amc::vec::Reallocate', 'amc::BasicAllocatorWrapper::Reallocate')) \
+                        and _fresh_pair(args, linit, body):
+                    rr.instance('%s|deallocate-fresh|%s' % (f['key'], site), {'function': f['pname'][:140], 'site': site,
+                                                                             'gives_back': 'the block just obtained, with the size it was requested with', 'ok': True})
+                elif in_base and sn == 'deallocate' and len(args) >= 2:
                     okp = is_this_storage(args[0], linit)
                     okn = _is_word_read(args[1], '_capa', linit)
                     # no store to _capa earlier in the function
@@ -248,7 +267,8 @@ def alloc_args(progs):
                                        % (sn, idx, want), where=f['pname'], unit=prog.uname))
             # amc::allocator's reallocate for non-relocatable types: allocate -> relocate -> deallocate, in that order
             if f['name'] == 'amc::BasicAllocatorWrapper::Reallocate':
-                seq = [A.cshort(c) for c in A.calls(body) if A.cshort(c) in ('allocate', 'uninitialized_relocate_n', 'deallocate', 'reallocate')]
+                seq = [A.cshort(c) for c in A.calls(body) if A.cshort(c) in ('allocate', 'uninitialized_relocate_n', 'deallocate', 'reallocate')
+                       and not (A.cshort(c) == 'deallocate' and len(c.get('args', [])) >= 2 and _fresh_pair(c['args'], linit, body))]
                 if 'reallocate' not in seq:
                     ok = seq == ['allocate', 'uninitialized_relocate_n', 'deallocate']
                     rr.instance('%s|order' % f['key'], {'function': f['pname'][:140], 'sequence': seq, 'ok': ok})
@@ -511,4 +531,101 @@ def each_other(progs):
                 rr.add(Finding('EACH-OTHER', '%s|%s' % (f['key'], ','.join(missing)), f['loc'],
                                'there is a path on which the capacity of `%s` is not checked against the size of the other operand before the element-wise exchange'
                                % '/'.join(missing), where=f['pname'], unit=prog.uname))
+    return rr
+
+
+# ====================================================================================== BLOCK
+class BlockClient(Client):
+    """State: frozenset of ('blk', did): a block obtained from the allocator lives in local `did` and is not yet owned by the
+    container (stored into a member / handed to setDyn / returned) nor given back to the allocator."""
+
+    def __init__(self, f, may, bound):
+        self.f, self.may, self.bound = f, may, bound
+        self.eng = None
+
+    def is_event(self, n):
+        return n.get('k') in ('call', 'construct', 'new', 'throw') or (n.get('k') == 'bin' and n.get('op') == '=')
+
+    def enter_handler(self, try_node, handler, state, thrower):
+        return state
+
+    @staticmethod
+    def _locals_in(n):
+        return {x.get('did') for x in walk(n or {}) if x.get('k') == 'ref' and x.get('dk') == 'local'}
+
+    def event(self, n, s):
+        k = n.get('k')
+        if k == 'throw':
+            return [('x', s)]
+        out = []
+        if k == 'bin':
+            lhs = A.strip(n.get('lhs'))
+            if isinstance(lhs, dict) and lhs.get('k') == 'mem':
+                used = self._locals_in(n.get('rhs'))
+                s = frozenset(o for o in s if o[1] not in used)          # stored into a member: owned
+            return [('n', s)]
+        # a second fault while the first one is being handled is outside the quantifier
+        if self.may(n) and s and not self.eng.handler_depth > 0:
+            out.append(('x', s))
+        ns = s
+        if k == 'call':
+            sn = A.cshort(n)
+            if id(n) in self.bound:
+                ns = ns | {('blk', self.bound[id(n)])}
+            elif n.get('method') and (sn == 'deallocate' or (n.get('obj') is not None and A.strip(n['obj']).get('k') == 'mem')):
+                used = set()
+                for a in n.get('args', []):
+                    used |= self._locals_in(a)
+                ns = frozenset(o for o in ns if o[1] not in used)        # given back, or handed to a member object (setDyn, ...)
+        out.append(('n', ns))
+        return out
+
+
+def block(progs):
+    rr = RuleResult('BLOCK', 'a block obtained from the allocator into a local variable is owned by the container (member store / setDyn / return) or '
+                             'given back (deallocate) on every exit of the function, including the exceptional successor of every may-throw call in between')
+    for prog in progs:
+        may = MayThrow(prog)
+        for f in prog.amc_functions():
+            body = f.get('body')
+            if body is None:
+                continue
+            bound = {}
+            for n in walk(body):
+                if n.get('k') == 'decl':
+                    for v in n.get('vars', []):
+                        ini = A.strip(v.get('init')) if v.get('init') else None
+                        if isinstance(ini, dict) and ini.get('k') == 'call' and A.cshort(ini) == 'allocate' and ini.get('method'):
+                            bound[id(ini)] = v['did']
+                elif n.get('k') == 'bin' and n.get('op') == '=':
+                    l, r = A.strip(n.get('lhs')), A.strip(n.get('rhs'))
+                    if isinstance(l, dict) and l.get('k') == 'ref' and l.get('dk') == 'local' and isinstance(r, dict) and r.get('k') == 'call' \
+                            and A.cshort(r) == 'allocate' and r.get('method'):
+                        bound[id(r)] = l['did']
+            if not bound:
+                continue
+            cl = BlockClient(f, may, bound)
+            eng = Engine(cl)
+            cl.eng = eng
+            o = eng.run(body, frozenset(), f.get('inits'))
+            rr.instance('%s|%s' % (f['key'], prog.uname), {'function': f['pname'][:150], 'unit': prog.uname, 'blocks_in_locals': len(bound),
+                                                           'exceptional_exit_states': len(o.throws)})
+            for s, nid in o.returns:
+                rn = eng.nodes.get(nid) or {}
+                used = BlockClient._locals_in(rn.get('e'))
+                for ob in s:
+                    if ob[1] not in used:
+                        rr.add(Finding('BLOCK', '%s|normal' % f['key'], f['loc'], 'a block obtained from the allocator is neither owned nor given back when the '
+                                       'function returns', where=f['pname'], unit=prog.uname))
+            for s in o.normal:
+                for ob in s:
+                    rr.add(Finding('BLOCK', '%s|normal' % f['key'], f['loc'], 'a block obtained from the allocator is neither owned nor given back when the '
+                                   'function ends', where=f['pname'], unit=prog.uname))
+            for s, thrower in o.throws:
+                tn = eng.nodes.get(thrower)
+                for ob in s:
+                    rr.add(Finding('BLOCK', '%s|throw|%s' % (f['key'], short((tn or {}).get('name', '') or 'throw')),
+                                   prog.site(f, tn) if tn is not None else f['loc'],
+                                   '%s may throw while the block just obtained from the allocator is only held by a local variable and no handler gives it '
+                                   'back: the block is leaked' % describe(tn)[:120], where=f['pname'], unit=prog.uname))
     return rr
